@@ -203,7 +203,7 @@ func (m *mangler) makeSignature(cert *certloader.Certificate, opts signers.SignO
 		ctype := m.ctypes.Find(name)
 		if ctype == "" {
 			ext := path.Ext(path.Base(name))
-			if ext[0] == '.' {
+			if len(ext) > 0 && ext[0] == '.' {
 				ctype = contentTypes[ext[1:]]
 			}
 		}
